@@ -49,7 +49,13 @@ RULE = (
     "whose stored values are all explicit zeros; unused list entries), dense receivers are also grown tensors (C-ordered "
     "buffer, numpy integers in shape), vectors / matrices / subscripts come in integer dtypes (also 255 in uint8), "
     "sumtensor receivers for ttv, sparse files with a subscript beyond the stated size or read with a lower index base; every "
-    "rejected request is repeated once and must be rejected again with the operands still unchanged."
+    "rejected request is repeated once and must be rejected again with the operands still unchanged.  Round 3: rows for every "
+    "stated shape / size precondition of sumtensor (+, reversed +, + list, innerprod, mttkrp), tenmat (reversed - / +, operand "
+    "types), sptenmat (from_array, item assignment), ktensor (from_vector, arrange, fixsigns, mask, normalize, score, symmetrize, "
+    "tolist, update, *, to_tenmat), ttensor (mttkrp, reconstruct, *) and mttkrp of sptensor / ktensor / ttensor / sumtensor; "
+    "receivers of in-place Kruskal operations that share their arrays with the caller (copy=False: the caller's arrays are "
+    "operands too); cp_als / cp_apr requests that also carry maxiters=0 / stoptime=0 (nothing is iterated, the request is "
+    "still ill-formed)."
 )
 ASSUMPTIONS = [
     "exception type is not constrained (AssertionError, ValueError, IndexError raised by numpy on behalf of the "
@@ -99,8 +105,12 @@ def snap(x):
     return ("other", repr(x))
 
 
+_ALSO = []  # further objects that must stay as they are (arrays a receiver shares with its caller); cleared by begin()
+
+
 def reject(ctx, viol, fn, *operands):
     """The property says ``fn()`` must raise and leave ``operands`` as they were."""
+    operands = tuple(operands) + tuple(_ALSO)
     before = [snap(o) for o in operands]
     raised = False
     try:
@@ -352,6 +362,7 @@ def begin(ctx, cellname, case, *labels, plain=False):
     if plain:  # rows whose valid control call needs ordinary data: operands as in round 1
         case = dict(case, zs=False, zo=False, prov="ctor", idt="float")
     state(case)
+    _ALSO.clear()
     ctx.label("viol-" + case["viol"], *labels, "receiver-zero" if case.get("zs") else "receiver-nonzero",
               "other-zero" if case.get("zo") else "other-nonzero", "dense-" + case.get("prov", "ctor"),
               "args-" + case.get("idt", "float"))
@@ -1563,6 +1574,375 @@ def c_khatrirao(ctx, case):
 
 
 # ==========================================================================
+# round 3: operations of sumtensor / tenmat / sptenmat / ktensor / ttensor (and mttkrp of the other holders) that state a
+# shape / size precondition and were missing from the table
+# ==========================================================================
+
+_V = stated(
+    "C19/sumtensor/ops",
+    add_shape_mismatch="sumtensor.py:56 'All tensors must be the same shape' - S + X hands the receiver's parts and X to the "
+                       "constructor (sumtensor.py:230)",
+    radd_shape_mismatch="same, X + S: sumtensor.__radd__ (sumtensor.py:259), tensor.__add__ (tensor.py:2591) and "
+                        "ktensor.__add__ (ktensor.py:2463) forward to S + X",
+    add_list_shape_mismatch="same, S + [X, ...]: addends that agree with each other but not with the receiver's parts",
+    innerprod_shape_mismatch="forwarded to every part: tensor.py:742 'Inner product must be between tensors of the same size', "
+                             "sptensor.py:913, ktensor.py:1058, ttensor.py:308",
+    mttkrp_list_wrong_length="forwarded to every part: pyttb_utils.py:826 'List of factor matrices is the wrong length'",
+    mttkrp_factor_rows_wrong="forwarded to every part: tensor.py:1051 'Entry i of list of arrays is wrong size'",
+)
+
+
+@table("C19/sumtensor/ops", _V, per=40, first=["tensor", "sptensor", "ktensor", "ttensor"],
+       other=["tensor", "sptensor", "ktensor", "ttensor"])
+def c_sumtensor_ops(ctx, case):
+    begin(ctx, "C19/sumtensor/ops", case)
+    shape, a, b, v, r = list(case["shape"]), case["a"], case["b"], case["viol"], case["r"] + 1
+    N = len(shape)
+    P = holder(case["first"], shape, 0, case["pattern"], 2)
+    parts = [P] if b % 3 == 0 else [P, holder(["tensor", "sptensor", "ktensor", "ttensor"][(a + b) % 4], shape, 2, "some", 2)]
+    S = ttb.sumtensor(parts)
+    ctx.label("first-" + case["first"], f"parts{len(parts)}")
+    if v.startswith("mttkrp"):
+        if case["first"] != "tensor":  # a dense part states the size check; put one in
+            S = ttb.sumtensor(parts + [dense(shape, 3)])
+        U = [num(np.array(vals_for(n * r, j), dtype=float).reshape(n, r)) for j, n in enumerate(shape)]
+        n = a % N
+        if v == "mttkrp_list_wrong_length":
+            U2 = U[:-1] if (b % 2 and N > 2) else U + [np.ones((1, r))]
+            ctx.label("shorter" if len(U2) < N else "longer")
+            reject(ctx, v, lambda: S.mttkrp(U2, min(n, len(U2) - 1)), S, U2)
+        else:
+            i = [j for j in range(N) if j != n][b % (N - 1)]
+            rows = other_mode_len(shape, i, b)
+            ctx.label("rows-of-another-mode" if rows in shape else "rows-off-by-one")
+            U[i] = num(np.ones((rows, r)))
+            reject(ctx, v, lambda: S.mttkrp(U, n), S, U)
+        return
+    kd, oshape = mismatch(shape, case["mm"], a)
+    ctx.label("mm-" + kd, "other-" + case["other"])
+    Y = other(case["other"], oshape, 1, ["some", "full", "empty", "zeros"][b % 4], 2)
+    tag = f"{v}/{case['other']}"
+    if v == "add_shape_mismatch":
+        reject(ctx, tag, lambda: S + Y, S, Y)
+    elif v == "radd_shape_mismatch":
+        reject(ctx, tag, lambda: Y + S, S, Y)
+    elif v == "add_list_shape_mismatch":
+        Y2 = other(["tensor", "sptensor", "ktensor", "ttensor"][(a + 1) % 4], oshape, 3, "some", 2)
+        lst = [Y] if b % 2 else [Y, Y2]
+        ctx.label(f"list{len(lst)}")
+        reject(ctx, tag, (lambda: S + lst) if a % 2 else (lambda: lst + S), S, lst)
+    else:
+        reject(ctx, tag, lambda: S.innerprod(Y), S, Y)
+
+
+_V = stated(
+    "C19/mttkrp/others",
+    list_wrong_length="pyttb_utils.py:826 'List of factor matrices is the wrong length' (get_mttkrp_factors, used by sptensor / "
+                      "ktensor / ttensor / sumtensor.mttkrp)",
+    factor_rows_wrong="sptensor.py 'Multiplicand is wrong size'; ktensor.py:1264 / ttensor.py:452 multiply "
+                      "factor_matrices[i].T by U[i] (numpy rejects the inner dimension); [property statement] wrong-size matrices",
+)
+
+
+@table("C19/mttkrp/others", _V, per=50, min_order=3, holder=["sptensor", "ktensor", "ttensor", "sumtensor"])
+def c_mttkrp_others(ctx, case):
+    begin(ctx, "C19/mttkrp/others", case, case["holder"])
+    shape, a, b, v, r = list(case["shape"]), case["a"], case["b"], case["viol"], case["r"] + 1
+    N = len(shape)
+    X = holder(case["holder"], shape, case["k"], case["pattern"], 2)
+    U = [num(np.array(vals_for(n * r, j), dtype=float).reshape(n, r)) for j, n in enumerate(shape)]
+    n = a % N
+    if v == "list_wrong_length":
+        U2 = U[:-1] if b % 2 else U + [np.ones((1, r))]
+        ctx.label("shorter" if b % 2 else "longer")
+        reject(ctx, f"{v}/{case['holder']}", lambda: X.mttkrp(U2, min(n, len(U2) - 1)), X, U2)
+    else:
+        i = [j for j in range(N) if j != n][b % (N - 1)]
+        rows = other_mode_len(shape, i, b)
+        ctx.label("rows-of-another-mode" if rows in shape else "rows-off-by-one", "longer" if rows > shape[i] else "shorter")
+        U[i] = num(np.ones((rows, r)))
+        reject(ctx, f"{v}/{case['holder']}", lambda: X.mttkrp(U, n), X, U)
+
+
+_V = stated(
+    "C19/tenmat/ops",
+    rsub_shape_mismatch="tenmat.py:696 'tenmat shape mismatch.'",
+    radd_shape_mismatch="tenmat.py:617 __radd__ is __add__: tenmat.py:588 'tenmat shape mismatch.'",
+    mul_other_type="tenmat.py:523 'tenmat multiplication only valid with scalar or tenmat objects.'",
+    rmul_other_type="same through __rmul__",
+    sub_other_type="tenmat.py:663 'tenmat subtraction only valid with scalar or tenmat objects.'",
+    rsub_other_type="tenmat.py:701 same",
+    isequal_other_type="tenmat.py:416 ValueError('Can only compares against other tenmat')",
+)
+
+
+# not a row: tenmat.py:149 'data.shape does not match shape specified by rdims, cdims, and tshape' compares element counts
+# only, and the pinned tests build tenmats whose matrix is not prod(rdims) x prod(cdims) on purpose (a 1-d vector stored as a
+# row; np.ones((5, 5)) for tshape (1, 1, 1, 25)) - the library accepts them by design
+
+
+@table("C19/tenmat/ops", _V, per=20, min_order=3)
+def c_tenmat_ops(ctx, case):
+    begin(ctx, "C19/tenmat/ops", case)
+    shape, a, b, v = list(case["shape"]), case["a"], case["b"], case["viol"]
+    N = len(shape)
+    k = 1 + a % (N - 1)
+    nr, nc = ref.prod(shape[:k]), ref.prod(shape[k:])
+    R, C = np.arange(k), np.arange(k, N)
+    data = np.array(vals_for(nr * nc), dtype=float).reshape(nr, nc) * (0.0 if case.get("zs") else 1.0)
+    one = 0.0 if case.get("zo") else 1.0
+    A = ttb.tenmat(data, R, C, tuple(shape))
+    if v in ("rsub_shape_mismatch", "radd_shape_mismatch"):
+        style = b % 3
+        if style == 0 and nr != nc:
+            Bm = ttb.tenmat(data.T.copy(), C - k, R + (N - k), tuple(shape[k:] + shape[:k]))
+            ctx.label("transposed-same-count")
+        elif style == 1 and nr > 1:
+            Bm = ttb.tenmat(one * np.ones((1, nc)), np.array([0]), np.array([1]), (1, nc))
+            ctx.label("single-row-broadcastable")
+        else:
+            Bm = ttb.tenmat(one * np.ones((nr, nc + 1)), np.array([0]), np.array([1]), (nr, nc + 1))
+            ctx.label("one-more-column")
+        reject(ctx, v, (lambda: A.__rsub__(Bm)) if v.startswith("rsub") else (lambda: A.__radd__(Bm)), A, Bm)
+    else:
+        Y = [dense(shape, 1), data.copy(), "2", [1.0, 2.0]][b % 4]
+        ctx.label("other-" + type(Y).__name__)
+        fn = {"mul_other_type": lambda: A * Y, "rmul_other_type": lambda: A.__rmul__(Y), "sub_other_type": lambda: A - Y,
+              "rsub_other_type": lambda: A.__rsub__(Y), "isequal_other_type": lambda: A.isequal(Y)}[v]
+        reject(ctx, v, fn, A)
+
+
+_V = stated(
+    "C19/sptenmat/ops",
+    from_array_wrong_type="sptenmat.py:230 ValueError('Expected sparse matrix or array but received ...')",
+    from_array_nonzero_beyond_tshape="sptenmat.py:124/127 'Invalid row index.' / 'Invalid column index.' - from_array hands the "
+                                     "positions of the nonzeros of the matrix to the constructor",
+    setitem_key_not_a_pair="sptenmat.py:530 IndexError('Sptenmat takes two arguments as a 2D array')",
+    setitem_wrong_number_of_indices="sptenmat.py:532 IndexError('Wrong number of indices. Expected 2 received: n')",
+    isequal_other_type="sptenmat.py:446 ValueError('Can only compares against other sptenmat')",
+)
+
+
+@table("C19/sptenmat/ops", _V, per=20, min_order=3)
+def c_sptenmat_ops(ctx, case):
+    begin(ctx, "C19/sptenmat/ops", case)
+    import scipy.sparse as sps
+
+    shape, a, b, v = list(case["shape"]), case["a"], case["b"], case["viol"]
+    N = len(shape)
+    k = 1 + a % (N - 1)
+    nr, nc = ref.prod(shape[:k]), ref.prod(shape[k:])
+    R, C = np.arange(k), np.arange(k, N)
+    M = np.zeros((nr, nc))
+    M[0, 0], M[nr - 1, nc - 1] = 2.0, 3.0
+    if v == "from_array_wrong_type":
+        arg = M.tolist() if b % 2 else ttb.tensor(M)
+        reject(ctx, v, lambda: ttb.sptenmat.from_array(arg, R, C, tuple(shape)))
+    elif v == "from_array_nonzero_beyond_tshape":
+        grow_rows = b % 2 == 0
+        big = np.zeros((nr + 1, nc)) if grow_rows else np.zeros((nr, nc + 1))
+        big[:nr, :nc] = M
+        big[-1, -1] = 0.0 if False else 5.0
+        arg = big if (b // 2) % 2 == 0 else sps.coo_matrix(big)
+        ctx.label("row-beyond" if grow_rows else "column-beyond", "dense-array" if (b // 2) % 2 == 0 else "scipy-sparse")
+        reject(ctx, v, lambda: ttb.sptenmat.from_array(arg, R, C, tuple(shape)))
+    else:
+        X = ttb.sptenmat(np.array([[0, 0], [nr - 1, nc - 1]])[: 1 + b % 2], np.array([[2.0], [3.0]])[: 1 + b % 2], R, C,
+                         tuple(shape))
+        if v == "setitem_key_not_a_pair":
+            key = [0, [0, 0], slice(None)][b % 3]
+            reject(ctx, v, lambda: X.__setitem__(key, 7.0), X)
+        elif v == "setitem_wrong_number_of_indices":
+            key = [(0,), (0, 0, 0), ()][b % 3]
+            reject(ctx, v, lambda: X.__setitem__(key, 7.0), X)
+        else:
+            Y = [M, sparse(shape, "some", 1), X.subs][b % 3]
+            reject(ctx, v, lambda: X.isequal(Y), X)
+
+
+_V = stated(
+    "C19/ktensor/more",
+    from_vector_wrong_length="ktensor.py:406 \"Input parameter 'data' is not the right length.\"",
+    from_vector_not_a_vector="ktensor.py:390 \"Input parameter 'data' must be a numpy.array vector.\"",
+    arrange_permutation_wrong_length="ktensor.py:546 'Number of elements in permutation does not match number of components in "
+                                     "ktensor.'",
+    arrange_weight_and_permutation="ktensor.py:532 'Weighting and permuting the ktensor at the same time is not allowed.'",
+    fixsigns_other_not_ktensor="ktensor.py:835 'other must be a ktensor'",
+    mask_bigger_than_tensor="ktensor.py:1210 'Mask cannot be bigger than the data tensor'",
+    normalize_mode_out_of_range="ktensor.py:1376 'Parameter single_factor is invalid; index must be an int in range of number "
+                                "of dimensions'",
+    score_shape_mismatch="ktensor.py:1690 'Size mismatch'",
+    score_fewer_components="ktensor.py:1704 'Tensor A must have at least as many components as tensor B'",
+    score_threshold_out_of_range="ktensor.py:1695 'Threshold must be in range [0.0, 1.0]'",
+    symmetrize_not_cubic="ktensor.py:1807 'Tensor is not cubic -- cannot be symmetrized'",
+    tolist_mode_out_of_range="ktensor.py:1898 \"Input parameter'mode' must be in the range of self.ndims\"",
+    update_data_too_short="ktensor.py:2239/2246 'Data is too short'",
+    update_invalid_mode="ktensor.py:2254 'Invalid mode: k'",
+    update_modes_not_sorted="ktensor.py:2229 'Modes must be sorted in ascending order'",
+    mul_other_type="ktensor.py:2545 'Multiplication by ktensors only allowed for scalars, tensors, or sptensors'",
+    to_tenmat_not_a_partition="ktensor.py:1027 forwards to tensor.to_tenmat: tenmat.py:161 'the sorted concatenation of rdims and "
+                              "cdims must be range(source.ndims)'",
+)
+
+
+def update_fails_after_first_mode(case):
+    return case.get("viol") in ("update_data_too_short", "update_invalid_mode") and case.get("b", 0) % 3 != 0
+
+
+@table("C19/ktensor/more", _V, per=24)
+def c_ktensor_more(ctx, case):
+    begin(ctx, "C19/ktensor/more", case)
+    shape, r, a, b, v = list(case["shape"]), case["r"] + 1, case["a"], case["b"], case["viol"]
+    N = len(shape)
+    K = kten(shape, r, case["k"])
+    if v.startswith(("arrange", "normalize", "update", "fixsigns")) and case["k"] % 2:
+        # (round 3) the receiver of an in-place operation shares its arrays with the caller: they are operands too
+        src = [np.asfortranarray(f.copy()) for f in K.factor_matrices], K.weights.copy()
+        K = ttb.ktensor(src[0], src[1], copy=False)
+        ctx.label("receiver-shares-callers-arrays" if all(np.shares_memory(x, y) for x, y in zip(K.factor_matrices, src[0]))
+                  else "receiver-owns-arrays")
+        _ALSO.extend([src[0], src[1]])
+    i = a % N
+    if v == "from_vector_wrong_length":
+        with_w = bool(b % 2)
+        right = r * (sum(shape) + (1 if with_w else 0))
+        # coincidences: the right length for the other setting of contains_weights (when that is no multiple), one more /
+        # one fewer entry, the length of the dense tensor
+        cands = [right + 1, right - 1, r * sum(shape) + (0 if with_w else r), ref.prod(shape)]
+        per = sum(shape) + (1 if with_w else 0)
+        cands = [L for L in cands if L > 0 and L % per != 0]
+        L = cands[a % len(cands)] if cands else right * per + 1
+        d = num(np.arange(1.0, L + 1))
+        ctx.label("with-weights" if with_w else "without-weights")
+        reject(ctx, v, lambda: ttb.ktensor.from_vector(d, tuple(shape), with_w), d)
+    elif v == "from_vector_not_a_vector":
+        d = np.ones((sum(shape), r)) if r > 1 and sum(shape) > 1 else np.ones((2, 2, 1))
+        reject(ctx, v, lambda: ttb.ktensor.from_vector(d, tuple(shape), False), d)
+    elif v == "arrange_permutation_wrong_length":
+        ident = list(range(r))
+        perm = [ident[:-1], ident + [0], ident + [r], []][b % 4]
+        if len(perm) == r:
+            perm = ident + [0]
+        arg = perm if a % 2 else np.array(perm, dtype=int)
+        ctx.label("shorter" if len(perm) < r else "longer")
+        reject(ctx, v, lambda: K.arrange(permutation=arg), K)
+    elif v == "arrange_weight_and_permutation":
+        reject(ctx, v, lambda: K.arrange(weight_factor=i, permutation=list(range(r))), K)
+    elif v == "fixsigns_other_not_ktensor":
+        Y = [dense(shape, 1), sparse(shape, "some", 1), [f.copy() for f in K.factor_matrices]][b % 3]
+        reject(ctx, v, lambda: K.fixsigns(Y), K)
+    elif v == "mask_bigger_than_tensor":
+        kinds = ["off-by-one-up", "n-for-singleton", "extra-trailing-singleton", "merged-same-count"]
+        kd, oshape = mismatch(shape, kinds[b % 4], a)
+        if len(oshape) == N and not any(o > s_ for o, s_ in zip(oshape, shape)):
+            oshape = list(shape)
+            oshape[i] += 1
+            kd = "off-by-one-up"
+        ctx.label("mm-" + kd)
+        W = other(["tensor", "sptensor"][a % 2], oshape, 1, ["some", "one", "empty"][b % 3])
+        reject(ctx, v, lambda: K.mask(W), K, W)
+    elif v == "normalize_mode_out_of_range":
+        mode = [N, -1, N + 1, -N - 1][b % 4]
+        reject(ctx, v, lambda: K.normalize(mode=mode), K)
+    elif v == "tolist_mode_out_of_range":
+        mode = [N, -1, N + 1][b % 3]
+        reject(ctx, v, lambda: K.tolist(mode), K)
+    elif v == "score_shape_mismatch":
+        kd, oshape = mismatch(shape, case["mm"], a)
+        ctx.label("mm-" + kd)
+        Y = kten(oshape, r if b % 2 else max(1, r - 1), 1, role="other")
+        reject(ctx, v, lambda: K.score(Y), K, Y)
+    elif v == "score_fewer_components":
+        Y = kten(shape, r + 1 + b % 2, 1, role="other")
+        reject(ctx, v, lambda: K.score(Y), K, Y)
+    elif v == "score_threshold_out_of_range":
+        Y = kten(shape, r, 1, role="other")
+        th = [1.5, -0.1, 1.0000001, -1e-9][b % 4]
+        reject(ctx, v, lambda: K.score(Y, threshold=th), K, Y)
+    elif v == "symmetrize_not_cubic":
+        reject(ctx, v, lambda: K.symmetrize(), K)  # (base shapes have at least two distinct sizes)
+    elif v in ("update_data_too_short", "update_invalid_mode", "update_modes_not_sorted"):
+        # updates of several modes at once: the offending part comes first (b % 3 == 0) or after modes that are fine
+        modes = sorted({i, (i + 1) % N}) if N > 1 else [0]
+        if b % 3 == 1:
+            modes = [-1] + modes
+        need = sum(r if m == -1 else shape[m] * r for m in modes)
+        if v == "update_data_too_short":
+            if b % 3 == 0:
+                modes = modes[:1]
+                need = shape[modes[0]] * r
+            L = max(0, need - 1 - a % 2)
+            d = np.arange(10.0, 10.0 + L)
+            ctx.label("short-for-first-mode" if b % 3 == 0 else "short-for-later-mode")
+            reject(ctx, v, lambda: K.update(modes, d), K, d)
+        elif v == "update_invalid_mode":
+            bad = N + a % 2
+            modes = [bad] if b % 3 == 0 else modes + [bad]
+            d = np.arange(10.0, 10.0 + need + shape[0] * r)
+            ctx.label("invalid-first" if b % 3 == 0 else "invalid-after-valid")
+            reject(ctx, v, lambda: K.update(modes, d), K, d)
+        else:
+            if N < 2:
+                ctx.skip("one-mode")
+            modes = sorted({i, (i + 1) % N})[::-1]
+            d = np.arange(10.0, 10.0 + sum(shape[m] * r for m in modes))
+            reject(ctx, v, lambda: K.update(modes, d), K, d)
+    elif v == "mul_other_type":
+        Y = [kten(shape, r, 1, role="other"), tten(shape, None, 1, role="other"), "2", [2.0]][b % 4]
+        ctx.label("other-" + type(Y).__name__)
+        reject(ctx, v, lambda: K * Y, K)
+    else:
+        sub = ["overlap", "missing_mode", "repeated_in_rdims", "rdims_equal_bound"][b % 4]
+        r2, c2 = bad_partition(N, sub, a, b)
+        ctx.label("partition-" + sub)
+        reject(ctx, v, lambda: K.to_tenmat(np.array(r2, dtype=int), np.array(c2, dtype=int)), K)
+
+
+_V = stated(
+    "C19/ttensor/more",
+    mttkrp_list_wrong_length="pyttb_utils.py:826 'List of factor matrices is the wrong length'",
+    mttkrp_factor_rows_wrong="ttensor.py:452 factor_matrices[i].transpose().dot(U[i]) (numpy rejects the inner dimension); "
+                             "[property statement] wrong-size matrices",
+    reconstruct_modes_without_samples="ttensor.py:580 ValueError('... samples must be provided with modes.')",
+    reconstruct_lengths_differ="ttensor.py:600 ValueError('If samples and modes provided lengths must be equal ...')",
+    mul_other_type="ttensor.py:356 ValueError('This object cannot be multiplied by ttensor ...')",
+    rmul_other_type="ttensor.py:374 ValueError('This object cannot be multiplied by ttensor')",
+)
+
+
+@table("C19/ttensor/more", _V, per=25, min_order=3)
+def c_ttensor_more(ctx, case):
+    begin(ctx, "C19/ttensor/more", case)
+    shape, a, b, v, r = list(case["shape"]), case["a"], case["b"], case["viol"], case["r"] + 1
+    N = len(shape)
+    T = tten(shape, [1 + (a + j) % 2 for j in range(N)], case["k"], sparse_core=bool(b % 2))
+    if v.startswith("mttkrp"):
+        U = [num(np.array(vals_for(n * r, j), dtype=float).reshape(n, r)) for j, n in enumerate(shape)]
+        n = a % N
+        if v == "mttkrp_list_wrong_length":
+            U2 = U[:-1] if (b // 2) % 2 else U + [np.ones((1, r))]
+            ctx.label("shorter" if len(U2) < N else "longer")
+            reject(ctx, v, lambda: T.mttkrp(U2, min(n, len(U2) - 1)), T, U2)
+        else:
+            i = [j for j in range(N) if j != n][b % (N - 1)]
+            rows = other_mode_len(shape, i, b)
+            U[i] = num(np.ones((rows, r)))
+            reject(ctx, v, lambda: T.mttkrp(U, n), T, U)
+    elif v == "reconstruct_modes_without_samples":
+        modes = [a % N, [a % N], list(range(N))][b % 3]
+        reject(ctx, v, lambda: T.reconstruct(modes=modes), T)
+    elif v == "reconstruct_lengths_differ":
+        modes = sorted({a % N, (a + 1) % N})
+        samples = [np.array([0])] * (len(modes) + 1) if b % 2 else [np.array([0])] * (len(modes) - 1) or [np.array([0])] * 3
+        ctx.label("more-samples" if len(samples) > len(modes) else "fewer-samples")
+        reject(ctx, v, lambda: T.reconstruct(samples=samples, modes=modes), T)
+    else:
+        Y = [tten(shape, None, 1, role="other"), dense(shape, 1), np.ones(tuple(shape)), "2"][b % 4]
+        ctx.label("other-" + type(Y).__name__)
+        reject(ctx, v, (lambda: T * Y) if v == "mul_other_type" else (lambda: T.__rmul__(Y)), T)
+
+
+# ==========================================================================
 # algorithm option checks
 # ==========================================================================
 
@@ -1592,7 +1972,13 @@ def _bad_dimorder(N, v, a, b):
     return p
 
 
-@table("C19/alg/cp_als", _V, holder=["tensor", "sptensor", "ktensor"])
+# round 3: the ill-formed request also carries option values that end the algorithm before it does anything (no sweep at
+# all, a time limit that has already passed); the control call keeps ordinary options.  A check that sits inside the
+# iteration would let such a request through.
+_EARLY = [None, None, "maxiters0", "stoptime0"]
+
+
+@table("C19/alg/cp_als", _V, holder=["tensor", "sptensor", "ktensor"], early=[None, None, "maxiters0"])
 def c_cp_als(ctx, case):
     begin(ctx, "C19/alg/cp_als", case, case["holder"], plain=True)
     shape, a, b, v, r = list(case["shape"]), case["a"], case["b"], case["viol"], case["r"] + 1
@@ -1602,6 +1988,9 @@ def c_cp_als(ctx, case):
     np.random.seed(case["a"] * 8 + case["b"])
     with ctx.sut("control:valid-call"):  # the same call without the violation is answered
         ttb.cp_als(X, 1, init="random", dimorder=list(range(N))[::-1], **kw)
+    if case.get("early") == "maxiters0":
+        kw = dict(maxiters=0, printitn=0)
+    ctx.label("early-exit-" + str(case.get("early")))
     if v.startswith("dimorder"):
         d = _bad_dimorder(N, v, a, b)
         reject(ctx, v, lambda: ttb.cp_als(X, r, dimorder=d, **kw), X)
@@ -1658,7 +2047,7 @@ def _pos_kt(shape, r):
                        np.ones(r))
 
 
-@table("C19/alg/cp_apr", _V, alg=["mu", "pdnr", "pqnr"], sp=[False, True])
+@table("C19/alg/cp_apr", _V, alg=["mu", "pdnr", "pqnr"], sp=[False, True], early=_EARLY)
 def c_cp_apr(ctx, case):
     begin(ctx, "C19/alg/cp_apr", case, case["alg"], "sparse" if case["sp"] else "dense", plain=True)
     shape, a, b, v, r = list(case["shape"]), case["a"], case["b"], case["viol"], case["r"]
@@ -1669,6 +2058,11 @@ def c_cp_apr(ctx, case):
     if case["alg"] != "pqnr":  # (pqnr has an open assertion finding of its own, C11)
         with ctx.sut("control:valid-call"):
             ttb.cp_apr(X, r, init=_pos_kt(shape, r), **kw)
+    if case.get("early") == "maxiters0":
+        kw = dict(kw, maxiters=0)
+    elif case.get("early") == "stoptime0":
+        kw = dict(kw, stoptime=0.0)
+    ctx.label("early-exit-" + str(case.get("early")))
     if v == "rank_zero":
         reject(ctx, v, lambda: ttb.cp_apr(X, 0 if b % 2 else -1, **kw), X)
     elif v == "negative_data":
@@ -1939,6 +2333,8 @@ def _order_all_ones(c):
 
 
 PREDICATES = {
+    # round 3
+    "update_fails_after_first_mode": lambda c: update_fails_after_first_mode(c),
     "order_is_all_ones": _order_all_ones,
     "self_sptensor_empty": lambda c: c["pattern"] == "empty",
     "shapes_broadcast": _broadcastable,
